@@ -1101,3 +1101,20 @@ def trig_multiple_lines(rng, fmts, modes=("E", "A"), kmax=81):
                         for sg in (0, 1):
                             lines.append("fn %s %s %s" % (name, s, nearest_tok(s, v, sg, d)))
     return lines
+
+
+def pow_large_lines(rng, fmts, per, modes=("E", "A")):
+    """pow with 100 <= |y ln x| <= 512 (error amplification through exp)"""
+    import math
+    lines = []
+    for (E, P) in fmts:
+        if E < 11:
+            continue
+        for m in modes:
+            s = Sem(E, P, m)
+            for _ in range(per):
+                xv = rng.choice([rng.uniform(1.5, 30.0), rng.uniform(0.03, 0.7), 3.0, 7.5, 11.0, 19.0])
+                t = rng.uniform(100.0, 511.0) * rng.choice([1, -1])
+                yv = t / math.log(xv)
+                lines.append("pow %s %s %s" % (s, nearest_tok(s, xv, 0), nearest_tok(s, abs(yv), 1 if yv < 0 else 0)))
+    return lines
